@@ -15,8 +15,8 @@ def parseStrings (s : String) : List (List Byte) :=
 `cli <d> <strings>`: the array of strings (hex, `,`-separated, `-` = empty string, `.` = empty
 array) is formatted with `@csv` (d = 2c) / `@dsv(d)`, printed raw, and read back with
 `--input-dsv d`.  Answer `<printed text>|<rows read back>`, `ERR` for an inadmissible delimiter.
-Cross-checks: cursor-model reading = spec reading; for a non-empty array the rows read back are
-exactly `[xs]` (`MODEL-SPEC` otherwise).
+Cheap run-time guard: for a non-empty array the rows read back are exactly `[xs]` (`MODEL-SPEC`
+otherwise) — this is `Props.C22.csv_round_trip`.
 -/
 def exec (a : List String) : String :=
   match a with
@@ -27,7 +27,7 @@ def exec (a : List String) : String :=
     let line := printedLine d xs
     let back := readDsv d line
     let body := s!"{hexBytes line}|{rowsStr back}"
-    if back ≠ readDsvSpec d line ∨ (!xs.isEmpty ∧ back ≠ [xs]) then
+    if !xs.isEmpty ∧ back ≠ [xs] then
       s!"MODEL-SPEC {body} spec={rowsStr (readDsvSpec d line)} want={rowsStr [xs]}"
     else body
   | _ => "BAD-OP"
